@@ -102,22 +102,29 @@ ReplayBlock(m, es) ==
 
 IsTorn(c) == c.t # "blk"
 
-RECURSIVE Scan(_, _, _)
-Scan(ch, i, m) ==
+\* ttf: the reader fails on a torn payload at the end of the file (deviation TornTailFails)
+RECURSIVE ScanD(_, _, _, _)
+ScanD(ch, i, m, ttf) ==
   IF i > Len(ch) THEN OkRes(m)
   ELSE LET c == ch[i] IN
        IF c.t = "blk"
-         THEN LET r == ReplayBlock(m, Visible(c)) IN IF r.ok THEN Scan(ch, i + 1, r.m) ELSE ErrRes
+         THEN LET r == ReplayBlock(m, Visible(c)) IN IF r.ok THEN ScanD(ch, i + 1, r.m, ttf) ELSE ErrRes
        ELSE IF i < Len(ch) THEN ErrRes            \* bytes of later blocks are read as this block's: checksum fails
-       ELSE IF c.t = "tpay" /\ "TornTailFails" \in Dev THEN ErrRes   \* unexpected EOF
+       ELSE IF c.t = "tpay" /\ ttf THEN ErrRes    \* unexpected EOF
        ELSE OkRes(m)                              \* torn tail = end of file
+Scan(ch, i, m) == ScanD(ch, i, m, "TornTailFails" \in Dev)
 
 \* FileReader.LoadIndex / chronicler Load.  A file shorter than header+name cannot be opened by the
 \* reader (nothing was ever stored in it: the chronicler then starts from the empty swamp).
-Load(d) ==
+LoadD(d, ttf) ==
   IF ~d.ex THEN OkRes(Empty)
   ELSE IF d.hd < 2 \/ d.clob THEN ErrRes
-  ELSE Scan(d.ch, 1, Empty)
+  ELSE ScanD(d.ch, 1, Empty, ttf)
+Load(d) == LoadD(d, "TornTailFails" \in Dev)
+
+\* A named deviation ALLOWS the deviating behaviour, it does not force it (a partly repaired engine is still
+\* explained): Alt(x) = the choices for "deviate?" at a decision governed by deviation x.
+Alt(x) == IF x \in Dev THEN {TRUE, FALSE} ELSE {FALSE}
 
 LoadMap(d) == Load(d).m
 
@@ -162,16 +169,14 @@ Open(nm) ==
   /\ cnt' = [cnt EXCEPT !.calls = @ + 1]
   /\ ref' = IF GivenUp /\ Load(disk).ok THEN LoadMap(disk) ELSE ref
   /\ UNCHANGED <<disk, fm, dur, bmaps, crashobs>>
-  /\ IF ~disk.ex
-       THEN /\ w' = [ClosedW EXCEPT !.open = TRUE] /\ Begin("open", CreateOps(nm))
-     ELSE IF disk.hd = 0
-       THEN IF "TornCreate" \in Dev
-              THEN /\ w' = ClosedW /\ pend' = <<>> /\ call' = Failed("open")   \* header unreadable (an old writer is gone)
-              ELSE /\ w' = [ClosedW EXCEPT !.open = TRUE] /\ Begin("open", CreateOps(nm))            \* start over
-     ELSE IF disk.hd = 1 /\ "TornCreate" \notin Dev
-       THEN /\ w' = [ClosedW EXCEPT !.open = TRUE] /\ Begin("open", CreateOps(nm))
-     ELSE /\ w' = [ClosedW EXCEPT !.open = TRUE, !.nb = disk.nb, !.ne = disk.ne]
-          /\ Begin("open", IF LastTorn(disk) /\ "AppendAfterTorn" \notin Dev THEN <<"trunc">> ELSE <<>>)
+  /\ \/ /\ (~disk.ex \/ disk.hd < 2)                     \* new file, or start over on an unfinished one
+        /\ w' = [ClosedW EXCEPT !.open = TRUE] /\ Begin("open", CreateOps(nm))
+     \/ /\ disk.ex /\ disk.hd = 0 /\ "TornCreate" \in Dev    \* header unreadable (an old writer is gone)
+        /\ w' = ClosedW /\ pend' = <<>> /\ call' = Failed("open")
+     \/ /\ disk.ex /\ (disk.hd = 2 \/ (disk.hd = 1 /\ "TornCreate" \in Dev))
+        /\ w' = [ClosedW EXCEPT !.open = TRUE, !.nb = disk.nb, !.ne = disk.ne]
+        /\ \E keepTorn \in Alt("AppendAfterTorn") :
+             Begin("open", IF LastTorn(disk) /\ ~keepTorn THEN <<"trunc">> ELSE <<>>)
 
 FlushOps == (IF w.dirty /\ LastTorn(disk) THEN <<"trunc">> ELSE <<>>) \o <<"bh", "pay", "hdr">>
 
@@ -182,19 +187,19 @@ WriteEntry(e, fl, told) ==
   /\ Quiescent /\ w.open /\ ~w.wedged
   /\ cnt' = [cnt EXCEPT !.writes = @ + 1]
   /\ UNCHANGED <<disk, fm, dur, bmaps, crashobs>>
-  /\ IF ~Encodable(e) /\ ~AcceptsBad(e)
-       THEN \* rejected, nothing stored
-            /\ pend' = <<>> /\ call' = Failed("put")
-            /\ UNCHANGED <<w, ref>>
-       ELSE /\ Count(w.buf) + e.rep <= CntLimit \/ "BlockCount16" \in Dev
-            /\ ref' = ApplyE(ref, e)
-            /\ IF fl \/ (Count(w.buf) + e.rep >= CntLimit /\ "BlockCount16" \notin Dev)
-                 THEN /\ w' = [w EXCEPT !.buf = <<>>, !.cur = Append(w.buf, e)]
-                      /\ pend' = FlushOps
-                      /\ call' = [name |-> "put", res |-> "", pre |-> ref, faulted |-> FALSE, told |-> told]
-                 ELSE /\ w' = [w EXCEPT !.buf = Append(w.buf, e)]
-                      /\ pend' = <<>>
-                      /\ call' = [name |-> "put", res |-> "ok", pre |-> ref, faulted |-> FALSE, told |-> told]
+  /\ \/ /\ ~Encodable(e)            \* rejected, nothing stored
+        /\ pend' = <<>> /\ call' = Failed("put")
+        /\ UNCHANGED <<w, ref>>
+     \/ /\ (Encodable(e) \/ AcceptsBad(e))
+        /\ (Count(w.buf) + e.rep <= CntLimit \/ "BlockCount16" \in Dev)
+        /\ ref' = ApplyE(ref, e)
+        /\ IF fl \/ (Count(w.buf) + e.rep >= CntLimit /\ "BlockCount16" \notin Dev)
+             THEN /\ w' = [w EXCEPT !.buf = <<>>, !.cur = Append(w.buf, e)]
+                  /\ pend' = FlushOps
+                  /\ call' = [name |-> "put", res |-> "", pre |-> ref, faulted |-> FALSE, told |-> told]
+             ELSE /\ w' = [w EXCEPT !.buf = Append(w.buf, e)]
+                  /\ pend' = <<>>
+                  /\ call' = [name |-> "put", res |-> "ok", pre |-> ref, faulted |-> FALSE, told |-> told]
 
 StartFlush(name, tail) ==
   IF w.buf = <<>> THEN /\ w' = w /\ Begin(name, tail)
@@ -322,26 +327,23 @@ Fault(mode) ==
   /\ LET op == Head(pend)
          inFlush == op \in {"bh", "pay", "trunc"}     \* the block in w.cur has not been written completely
          isPut == call.name = "put"
-         wedge == call.name = "close" /\ "CloseFaultWedges" \in Dev
      IN
      /\ op # "close"                      \* closing a descriptor is not a disk write
      /\ mode = "short" => TornImages(op) # {}
      /\ \E d \in FaultImages(mode) : disk' = d
-     /\ \E keep \in BOOLEAN :
+     /\ \E keep \in BOOLEAN, drop \in Alt("BufferDroppedOnError"), hide \in Alt("PartialBlockHides"),
+           mis \in Alt("HeaderFaultMisplaces"), wdg \in Alt("CloseFaultWedges") :
           \* strict: the entries of the failed block go back into the buffer.  The one entry whose own
           \* WriteEntry call reports the error may be kept for a retry or dropped (its caller was told);
           \* entries accepted by earlier calls must survive.
-          /\ (~keep) => (isPut /\ call.told /\ inFlush /\ "BufferDroppedOnError" \notin Dev)
+          /\ (~keep) => (isPut /\ call.told /\ inFlush /\ ~drop)
+          /\ wdg => call.name = "close"
           /\ LET back == IF keep THEN w.cur ELSE DropLast(w.cur) IN
              w' = CASE call.name = "open" -> ClosedW                     \* NewFileWriter failed
-                    [] inFlush /\ "BufferDroppedOnError" \in Dev ->
-                         [w EXCEPT !.cur = <<>>, !.wedged = wedge]
-                    [] inFlush ->
-                         [w EXCEPT !.cur = <<>>, !.buf = back \o w.buf, !.wedged = wedge,
-                                   !.dirty = "PartialBlockHides" \notin Dev]
-                    [] op \in {"hdr", "shdr"} ->
-                         [w EXCEPT !.pos = IF "HeaderFaultMisplaces" \in Dev THEN "mis" ELSE @, !.wedged = wedge]
-                    [] OTHER -> [w EXCEPT !.wedged = wedge]
+                    [] inFlush /\ drop -> [w EXCEPT !.cur = <<>>, !.wedged = wdg]
+                    [] inFlush -> [w EXCEPT !.cur = <<>>, !.buf = back \o w.buf, !.wedged = wdg, !.dirty = ~hide]
+                    [] op \in {"hdr", "shdr"} -> [w EXCEPT !.pos = IF mis THEN "mis" ELSE @, !.wedged = wdg]
+                    [] OTHER -> [w EXCEPT !.wedged = wdg]
           /\ ref' = IF keep THEN ref ELSE call.pre
   /\ pend' = <<>>
   /\ call' = [call EXCEPT !.res = "err", !.faulted = TRUE]
